@@ -268,6 +268,7 @@ class _RequestReceiver(Generic[_T_Request]):
     disconnect_error_filter: Callable[[Exception], bool] | None
     __null_timeout_ctx: contextlib.nullcontext[None] = dataclasses.field(init=False, default_factory=contextlib.nullcontext)
     __backend: AsyncBackend = dataclasses.field(init=False)
+    __recv_failed: bool = dataclasses.field(init=False, default=False)
 
     def __post_init__(self) -> None:
         assert self.max_recv_size > 0, f"{self.max_recv_size=}"  # nosec assert_used
@@ -305,11 +306,14 @@ class _RequestReceiver(Generic[_T_Request]):
                         break
             if recv_error is not None:
                 try:
-                    # A broken transport may raise this error again on every call without ever suspending:
-                    # always let the other tasks run (and a cancellation be delivered) before the error is thrown
-                    # into the request handler.
-                    # NOTE: Outside the timeout scope. Its cancellation must not replace the error.
-                    await self.__backend.coro_yield()
+                    if self.__recv_failed:
+                        # A broken transport may raise this error again on every call without ever suspending:
+                        # let the other tasks run (and a cancellation be delivered) before the error is thrown again
+                        # into the request handler.
+                        # NOTE: Outside the timeout scope. Its cancellation must not replace the error.
+                        #       The first error is thrown at once: a scope of the request handler must not replace it either.
+                        await self.__backend.coro_yield()
+                    self.__recv_failed = True
                     raise recv_error
                 finally:
                     del recv_error
@@ -326,6 +330,7 @@ class _BufferedRequestReceiver(Generic[_T_Request]):
     disconnect_error_filter: Callable[[Exception], bool] | None
     __null_timeout_ctx: contextlib.nullcontext[None] = dataclasses.field(init=False, default_factory=contextlib.nullcontext)
     __backend: AsyncBackend = dataclasses.field(init=False)
+    __recv_failed: bool = dataclasses.field(init=False, default=False)
 
     def __post_init__(self) -> None:
         self.__backend = self.transport.backend()
@@ -360,11 +365,14 @@ class _BufferedRequestReceiver(Generic[_T_Request]):
                         break
             if recv_error is not None:
                 try:
-                    # A broken transport may raise this error again on every call without ever suspending:
-                    # always let the other tasks run (and a cancellation be delivered) before the error is thrown
-                    # into the request handler.
-                    # NOTE: Outside the timeout scope. Its cancellation must not replace the error.
-                    await self.__backend.coro_yield()
+                    if self.__recv_failed:
+                        # A broken transport may raise this error again on every call without ever suspending:
+                        # let the other tasks run (and a cancellation be delivered) before the error is thrown again
+                        # into the request handler.
+                        # NOTE: Outside the timeout scope. Its cancellation must not replace the error.
+                        #       The first error is thrown at once: a scope of the request handler must not replace it either.
+                        await self.__backend.coro_yield()
+                    self.__recv_failed = True
                     raise recv_error
                 finally:
                     del recv_error
